@@ -97,6 +97,7 @@ pub struct UnitOut {
     budget_s: f64,
     sandboxed: bool,
     max_samples: usize,
+    pub violations_emitted: usize,
 }
 
 impl UnitOut {
@@ -153,6 +154,7 @@ impl UnitOut {
             case: self.case,
             detail,
         };
+        self.violations_emitted += 1;
         println!("V {}", serde_json::to_string(&v).unwrap());
         let _ = std::io::stdout().flush();
     }
@@ -273,6 +275,7 @@ pub fn worker_main(driver: &dyn Driver, ctx: &Ctx, args: WorkerArgs) {
             budget_s: driver.cpu_budget_s(),
             sandboxed: driver.sandboxed(),
             max_samples: 2,
+            violations_emitted: 0,
         };
         driver.run_unit(ctx, &mut out, start_case, only_case);
         println!("U {} {}", unit, serde_json::to_string(&out.report).unwrap());
